@@ -30,7 +30,7 @@ int main(void) {
             printf("#%ld\n", id); fflush(stdout);
             if (!sigsetjmp(h_jb, 1)) {
                 h_armed = 1; alarm(5);
-                rc = _wcsnorm_s_chk(dest, (rsize_t)dmax, src, mode ? WCSNORM_NFC : WCSNORM_NFD, &outlen, BOSU);
+                rc = _wcsnorm_s_chk(dest, (rsize_t)dmax, src, mode ? WCSNORM_NFC : WCSNORM_NFD, &outlen, H_KBOS(id, dmax > 0, dmax * sizeof(wchar_t)));
                 alarm(0); h_armed = 0;
             } else { alarm(0); fk = h_fault_kind; }
             for (i = 0; i < (R.rwlen / 4) - dmax; i++) if (((uint32_t *)R.rw)[i] != 0x5C5C5C5C) { frame_ok = 0; break; }
@@ -63,7 +63,7 @@ int main(void) {
             printf("#%ld\n", id); fflush(stdout);
             if (!sigsetjmp(h_jb, 1)) {
                 h_armed = 1; alarm(5);
-                rc = _wcsfc_s_chk(dest, (rsize_t)dmax, src, &outlen, BOSU);
+                rc = _wcsfc_s_chk(dest, (rsize_t)dmax, src, &outlen, H_KBOS(id, dmax > 0, dmax * sizeof(wchar_t)));
                 alarm(0); h_armed = 0;
             } else { alarm(0); fk = h_fault_kind; }
             for (i = 0; i < (R.rwlen / 4) - dmax; i++) if (((uint32_t *)R.rw)[i] != 0x5C5C5C5C) { frame_ok = 0; break; }
